@@ -182,7 +182,7 @@ def run(ck):
     files = files + syn * max(1, len(files) // (2 * max(1, len(syn))))
     ck.note("synthetic_modules", len(syn))
     bombs = make_bombs(os.path.join(scratch, "gen"), quick)
-    per = 120 if quick else 3000
+    per = 200 if quick else 10000
     shards = [(exe, ck.seed * 2003 + 13 * i, 0, per, scratch, files) for i in range(14)]
     # bombs: two shards, few cases each (every case picks one of the bombs, mutated or intact)
     shards += [(exe, ck.seed * 2003 + 901 + i, 0, 10 if quick else 60, scratch, bombs) for i in range(2)]
@@ -191,7 +191,7 @@ def run(ck):
     shutil.rmtree(liar_dir, ignore_errors=True)
     liar_files = liars.write_set(random.Random(ck.seed * 31337 + 11), liar_dir, 64 if quick else 400)
     ck.note("declared_size_liar_archives", len(liar_files))
-    shards += [(exe, ck.seed * 2003 + 951 + i, 0, 90 if quick else 1500, scratch, liar_files) for i in range(2)]
+    shards += [(exe, ck.seed * 2003 + 951 + i, 0, 90 if quick else 5000, scratch, liar_files) for i in range(2)]
     worst = {"cpu": None, "peak": None, "big": None, "plain_peak": None, "plain_big": None, "plain_cpu": None}
     n = 0
     for (rows, fails), sh in zip(vlib.pmap(run_res_shard, shards), shards):
